@@ -2200,6 +2200,9 @@ func extraC06ArgMin(c *Ctx, r *Report) {
 		r.Unresolved("C06-R9", "(*LeastConnectionsSelector).Select")
 		return
 	}
+	top := fn
+	n := 0
+	for _, fn := range withHelpers(top, 2) {
 	loops := naturalLoops(fn)
 	fromLookup := func(v ssa.Value) bool {
 		for i := 0; i < 4 && v != nil; i++ {
@@ -2216,7 +2219,6 @@ func extraC06ArgMin(c *Ctx, r *Report) {
 		}
 		return false
 	}
-	n := 0
 	eachInstr(fn, func(in ssa.Instruction) {
 		cmp, ok := in.(*ssa.BinOp)
 		if !ok || (cmp.Op != token.LSS && cmp.Op != token.LEQ && cmp.Op != token.GTR && cmp.Op != token.GEQ) || !inLoop(in.Block()) {
@@ -2235,7 +2237,7 @@ func extraC06ArgMin(c *Ctx, r *Report) {
 			return
 		}
 		n++
-		key := fname(fn) + ":running-minimum"
+		key := fname(top) + ":running-minimum"
 		updated := false
 		if p, ok := min.(*ssa.Phi); ok {
 			if loop, isHeader := loops[p.Block()]; isHeader {
@@ -2269,6 +2271,8 @@ func extraC06ArgMin(c *Ctx, r *Report) {
 			r.Bad("C06-R9", key, in.Pos(), "candidates are compared with a value that the loop never updates with the candidate's own count: the scan does not find the minimum (e.g. counts [3 1 2] select the endpoint with 2)")
 		}
 	})
+	}
+	fn = top
 	if n == 0 {
 		r.Undecided("C06-R9", fname(fn)+":running-minimum", fn.Pos(), "no comparison of a looked-up connection count inside the scan loop")
 	}
@@ -9536,4 +9540,130 @@ func init() {
 	})
 	// C20: an empty (or all-nameless) listing leaves the catalogue consistent: it is unified like any other listing
 	registerExtra("C20", func(c *Ctx, r *Report) { extraUnifyFromCurrent(c, r, "C20-R19", "C20-R18") })
+}
+
+// ---------- C02-R15: every line of a repeated backend header is relayed ----------
+func init() { registerExtra("C02", extraC02HeaderCopyUnconditional) }
+
+func extraC02HeaderCopyUnconditional(c *Ctx, r *Report) {
+	r.Rule("C02-R15", "where the proxy packages copy the backend's response headers to the client (Header.Add / Set / a map store on the client's header map with a value ranged out of http.Response.Header), the copy of a value is not control-dependent on a test of the CLIENT's header map (Get / Values / a lookup on it): the destination changes while the loop runs, so an 'only if not already set' guard is true for the first value of a repeated header and false for all the others — Set-Cookie, Link, Vary, WWW-Authenticate arrive with their first line only", 3)
+	isRW := func(t types.Type) bool { return isNamed(t, "net/http", "ResponseWriter") }
+	clientHeader := func(h ssa.Value) bool {
+		for d := 0; d < 4 && h != nil; d++ {
+			switch x := h.(type) {
+			case *ssa.Call:
+				return x.Call.IsInvoke() && x.Call.Method.Name() == "Header" && isRW(x.Call.Value.Type())
+			case *ssa.ChangeType:
+				h = x.X
+			default:
+				return false
+			}
+		}
+		return false
+	}
+	fromRespHeader := func(v ssa.Value) bool {
+		found := false
+		var walk func(v ssa.Value, d int)
+		walk = func(v ssa.Value, d int) {
+			if v == nil || d == 0 || found {
+				return
+			}
+			switch x := v.(type) {
+			case *ssa.Extract:
+				walk(x.Tuple, d-1)
+			case *ssa.Next:
+				walk(x.Iter, d-1)
+			case *ssa.Range:
+				walk(x.X, d-1)
+			case *ssa.UnOp:
+				if isField(x.X, "net/http", "Response", "Header") {
+					found = true
+					return
+				}
+				walk(x.X, d-1)
+			case *ssa.IndexAddr:
+				walk(x.X, d-1)
+			case *ssa.Index:
+				walk(x.X, d-1)
+			case *ssa.Lookup:
+				walk(x.X, d-1)
+			case *ssa.Phi:
+				for _, e := range x.Edges {
+					walk(e, d-1)
+				}
+			case *ssa.Slice:
+				walk(x.X, d-1)
+			}
+		}
+		walk(v, 8)
+		return found
+	}
+	testsClientHeader := func(v ssa.Value) bool {
+		found := false
+		var walk func(v ssa.Value, d int)
+		walk = func(v ssa.Value, d int) {
+			if v == nil || d == 0 || found {
+				return
+			}
+			switch x := v.(type) {
+			case *ssa.Call:
+				if h, _, _, ok := headerCall(x, "Get", "Values"); ok && clientHeader(h) {
+					found = true
+					return
+				}
+				for _, a := range x.Call.Args {
+					walk(a, d-1)
+				}
+			case *ssa.Lookup:
+				if clientHeader(x.X) {
+					found = true
+					return
+				}
+			case *ssa.BinOp:
+				walk(x.X, d-1)
+				walk(x.Y, d-1)
+			case *ssa.UnOp:
+				walk(x.X, d-1)
+			case *ssa.Extract:
+				walk(x.Tuple, d-1)
+			}
+		}
+		walk(v, 5)
+		return found
+	}
+	n := 0
+	for _, f := range c.Funcs {
+		if !strings.Contains(fnPkgPath(f), "/adapter/proxy") {
+			continue
+		}
+		eachInstr(f, func(in ssa.Instruction) {
+			var val ssa.Value
+			if h, _, _, ok := headerCall(in, "Add", "Set"); ok && clientHeader(h) {
+				val = getCall(in).Args[2]
+			} else if mu, ok := in.(*ssa.MapUpdate); ok && clientHeader(mu.Map) {
+				val = mu.Value
+			}
+			if val == nil || !fromRespHeader(val) {
+				return
+			}
+			n++
+			key := fname(f) + ":backend-header-copied-unconditionally"
+			bad := false
+			for _, cf := range normFacts(condFacts(in.Block())) {
+				if testsClientHeader(cf.Cond) {
+					bad = true
+				}
+			}
+			if bad {
+				r.Bad("C02-R15", key, in.Pos(), "a backend header value is copied only while the client's response does not carry that header yet: the test reads the map the loop is filling, so every line of a repeated backend header after the first is dropped (and a header Olla sets itself silently replaces the backend's)")
+			} else {
+				r.OK("C02-R15", key, in.Pos(), "each value of each backend header is added")
+			}
+		})
+	}
+	if n == 0 {
+		r.Undecided("C02-R15", "response-header-copy", token.NoPos, "no copy of http.Response.Header values onto the client's header map found in the proxy packages")
+	}
+	addMutants(Mutant{Prop: "C02", Name: "header-copy-skips-already-set", File: "internal/adapter/proxy/sherpa/service_retry.go", Rule: "C02-R15",
+		Old: "			w.Header().Add(key, value)\n", New: "			if w.Header().Get(key) == \"\" {\n				w.Header().Add(key, value)\n			}\n"})
 }
